@@ -986,6 +986,21 @@ def time_travel_family():
         tags2 = [k for k, _ in sorted(r.jump_points.items(), key=lambda kv: kv[1])]
         if tags2 != tags or not close(r.final_retval, 5.0 * 2.0 + (2.0 - 3.0)):
             fail("debugger.remix: the re-recorded tail misses frames / wrong value (independent record points)", tags=tags2, final=r.final_retval)
+    # an UNTAGGED recorded call before tagged ones: a tag's jump point is the frame's POSITION, not the number of tags seen
+
+    def untagged_first(x):
+        a = rec(g1)(x)                 # no tag
+        b = rec(g2, "mid")(a)
+        return rec(g1, "last")(b)
+    d = time_machine(untagged_first)(1.0)
+    for t_, want_local in (("mid", g2(g1(1.0))), ("last", g1(g2(g1(1.0))))):
+        j = d.jump(t_)
+        if not (close(j.sequence[j.ptr].local_retval, want_local) and j.frame()[0] == t_):
+            fail("debugger.jump(tag) does not land on the tagged frame when an untagged call was recorded before it", tag=t_,
+                 ptr=j.ptr, jump_points=d.jump_points)
+    r = d.jump("mid").remix(10.0)
+    if not close(r.final_retval, g1(g2(10.0))):
+        fail("debugger.jump(tag).remix(...) re-runs another frame than the tagged one", final=r.final_retval, want=g1(g2(10.0)))
 
 
 def diff_family():
